@@ -24,6 +24,12 @@ PURE_STD_PREFIXES = (
     "core::convert::<impl core::convert::TryFrom<U> for T>::try_from",
     "core::slice::index::", "core::ops::Index::index", "core::ops::function::Fn", "core::marker::",
     "core::option::unwrap_failed", "core::option::expect_failed", "core::result::unwrap_failed",
+    # pointer arithmetic and comparisons on *mut T (no access through the pointer)
+    "core::ptr::mut_ptr::<impl *mut T>::add", "core::ptr::mut_ptr::<impl *mut T>::sub", "core::ptr::mut_ptr::<impl *mut T>::offset",
+    "core::ptr::mut_ptr::<impl *mut T>::wrapping_", "core::ptr::mut_ptr::<impl *mut T>::byte_", "core::ptr::mut_ptr::<impl *mut T>::is_null",
+    "core::ptr::mut_ptr::<impl *mut T>::addr", "core::ptr::mut_ptr::<impl *mut T>::align_offset", "core::ptr::mut_ptr::<impl *mut T>::is_aligned",
+    # building format arguments (of a panic message) does not touch program state
+    "core::fmt::Arguments::", "core::fmt::rt::",
 )
 
 _memo = {}
